@@ -50,7 +50,7 @@ theorem C01_owner_change (s s' : St) (ev : Ev) (m : Nat) (h : step s ev = .ok s'
     (hne : (s'.mutex m).owner ≠ (s.mutex m).owner) :
     (∃ t, ev = .mutexTry m true t ∧ (s.mutex m).owner = none ∧ (s'.mutex m).owner = some t) ∨
     (∃ no hd b, ev = .mutexUnlock m no hd b ∧ (s.mutex m).owner = some (unlocker s m b) ∧
-        hd = (s.queue m).head? ∧ no = hd ∧ (s'.mutex m).owner = hd) := by
+        hd = (s.queue m).head? ∧ no = (if (s.mutex m).contending then none else hd) ∧ (s'.mutex m).owner = no) := by
   obtain ⟨s0, hth, g1, g2, hq, hm, g5, hdf, hp, hs'⟩ := step_ok s s' _ h
   rw [hs'] at hne ⊢
   cases ev <;> simp only [eff] at hne ⊢
@@ -82,10 +82,10 @@ theorem C01_owner_change (s s' : St) (ev : Ev) (m : Nat) (h : step s ev = .ok s'
       · simp [c1] at hp
       · by_cases c2 : hd ≠ (s.queue m).head?
         · simp [c1, c2] at hp
-        · by_cases c3 : no ≠ hd
+        · by_cases c3 : no ≠ (if (s.mutex m).contending then none else hd)
           · simp [c1, c2, c3] at hp
           · simp only [ne_eq, Decidable.not_not] at c1 c2 c3
-            exact ⟨no, hd, b, rfl, c1, c2, c3, c3⟩
+            exact ⟨no, hd, b, rfl, c1, c2, c3, rfl⟩
     · exfalso; apply hne; simp [hm, Ne.symm hmm, hmm]
   all_goals (exfalso; apply hne)
   case semSub sm n ok b => simp only [effSemSub]; split <;> simp [setTh, hm]
@@ -93,7 +93,8 @@ theorem C01_owner_change (s s' : St) (ev : Ev) (m : Nat) (h : step s ev = .ok s'
     cases q <;> simp [effSleep, enqueue, setTh, hm]
   case intrNoSleep t st e b => simp only [effIntrNoSleep]; split <;> simp [setTh, hm]
   case wakeTimeout t => simp [effWakeTimeout, dequeue, setTh, hm]; split <;> simp [hm]
-  case rwInit rw cv => simp [effRwInit, hm]
+  case rwInit rw cv mtx => simp [effRwInit, hm]
+  case mutexInit m' c => simp only [effMutexInit, upd, hm]; split <;> simp_all
   case retRwLock t rw w r => simp only [effRetRwLock]; split; simp [setTh, hm]; split <;> simp [setTh, hm]
   case callRwUnlock t rw => simp only [effCallRwUnlock]; split <;> simp [hm]
   case wakeIntr t e b =>
@@ -110,9 +111,9 @@ structure InvQ (s : St) : Prop where
   mem : ∀ k t, t ∈ s.queue k → (s.th t).st = .sleep ∧ (s.th t).q = some k
   nodup : ∀ k, (s.queue k).Nodup
   /-- a thread parked inside `lock(m)` on `m`'s own queue implies that `m` is held -/
-  held : ∀ m t to, t ∈ s.queue m → (s.th t).op = .lock m to → (s.mutex m).owner ≠ none
+  held : ∀ m t to, (s.mutex m).contending = false → t ∈ s.queue m → (s.th t).op = .lock m to → (s.mutex m).owner ≠ none
 
-theorem invQ_init : InvQ {} := ⟨by intro k t h; simp at h, by intro k; simp, by intro m t to h; simp at h⟩
+theorem invQ_init : InvQ {} := ⟨by intro k t h; simp at h, by intro k; simp, by intro m t to _ h; simp at h⟩
 
 theorem not_in_queue_of_run (s : St) (h : InvQ s) (t : Nat) (hr : (s.th t).st ≠ .sleep) (k : Nat) :
     t ∉ s.queue k := fun hm => hr (h.mem k t hm).1
@@ -127,15 +128,15 @@ theorem invQ_setTh_same (s : St) (h : InvQ s) (t : Nat) (x : Th)
     · next heq => subst heq; have := h.mem k t' hm; rw [h1, h2]; exact this
     · exact h.mem k t' hm
   · exact h.nodup
-  · intro m t' to hm hop
+  · intro m t' to hc hm hop
     simp only [setTh, upd] at hm hop ⊢
     split at hop
     · next heq =>
       subst heq
       rcases h3 m to hop with h4 | h4
-      · exact h.held m t' to hm h4
+      · exact h.held m t' to hc hm h4
       · exact absurd hm h4
-    · exact h.held m t' to hm hop
+    · exact h.held m t' to hc hm hop
 
 /-- waking `t`: it leaves the queue it was in and becomes runnable -/
 theorem wake_invQ (s : St) (h : InvQ s) (t : Nat) (x : Th) (h1 : x.st = .run) (h2 : x.q = none)
@@ -176,10 +177,10 @@ theorem wake_invQ (s : St) (h : InvQ s) (t : Nat) (x : Th) (h1 : x.st = .run) (h
       · exact List.Nodup.erase _ (h.nodup _)
       · exact h.nodup k
     · exact h.nodup k
-  · intro m t' to hm hop
+  · intro m t' to hc hm hop
     obtain ⟨hm', hne⟩ := hsub m t' hm
     rw [hth] at hop; simp only [upd, hne, if_false] at hop
-    rw [hmx]; exact h.held m t' to hm' hop
+    rw [hmx] at hc ⊢; exact h.held m t' to hc hm' hop
 
 theorem eff_invQ (s : St) (e : Ev) (hp : pre s e = none) (h : InvQ s) : InvQ (eff s e) := by
   cases e <;> simp only [eff]
@@ -198,11 +199,11 @@ theorem eff_invQ (s : St) (e : Ev) (hp : pre s e = none) (h : InvQ s) : InvQ (ef
       · next heq => subst heq; exact absurd hm (hnq k)
       · exact h.mem k t' hm
     · exact h.nodup
-    · intro m t' to hm hop
+    · intro m t' to hc hm hop
       simp only [effCreate, upd] at hm hop ⊢
       split at hop
       · next heq => subst heq; exact absurd hm (hnq m)
-      · exact h.held m t' to hm hop
+      · exact h.held m t' to hc hm hop
   case die t =>
     simp only [pre, preDie] at hp
     have hr : (s.th t).st = .run := by
@@ -217,11 +218,11 @@ theorem eff_invQ (s : St) (e : Ev) (hp : pre s e = none) (h : InvQ s) : InvQ (ef
       · next heq => subst heq; exact absurd hm (hnq k)
       · exact h.mem k t' hm
     · exact h.nodup
-    · intro m t' to hm hop
+    · intro m t' to hc hm hop
       simp only [effDie, setTh, upd] at hm hop ⊢
       split at hop
       · next heq => subst heq; exact absurd hm (hnq m)
-      · exact h.held m t' to hm hop
+      · exact h.held m t' to hc hm hop
   case setShutdown t => exact invQ_setTh_same s h t _ rfl rfl (fun m to ho => Or.inl ho)
   case call t op =>
     simp only [pre, preCall] at hp
@@ -250,7 +251,22 @@ theorem eff_invQ (s : St) (e : Ev) (hp : pre s e = none) (h : InvQ s) : InvQ (ef
   case quiescent => exact h
   case tick n => exact ⟨h.mem, h.nodup, h.held⟩
   case semInit sm c io => exact ⟨h.mem, h.nodup, h.held⟩
-  case mutexInit m => exact ⟨h.mem, h.nodup, h.held⟩
+  case mutexInit m c =>
+    refine ⟨h.mem, h.nodup, ?_⟩
+    intro m' t' to hc hm hop
+    simp only [effMutexInit, upd] at hc ⊢
+    split
+    · next heq =>
+      subst heq
+      -- registering a mutex does not touch its owner; a mutex is registered before it is used
+      exfalso
+      simp only [pre] at hp
+      by_cases hq : s.queue m' ≠ []
+      · rw [if_pos hq] at hp; exact absurd hp (by simp)
+      · simp only [ne_eq, Decidable.not_not] at hq
+        simp only [effMutexInit] at hm
+        rw [hq] at hm; simp at hm
+    · next hneq => simp only [hneq, if_false] at hc; exact h.held m' t' to hc hm hop
   case rwInit rw cv => exact ⟨h.mem, h.nodup, h.held⟩
   case retRwLock t rw w r =>
     have h1 : InvQ (setTh s t { s.th t with op := .none }) :=
@@ -271,10 +287,10 @@ theorem eff_invQ (s : St) (e : Ev) (hp : pre s e = none) (h : InvQ s) : InvQ (ef
   case mutexTry m ok t =>
     unfold effMutexTry; split
     · refine ⟨h.mem, h.nodup, ?_⟩
-      intro m' t' to hm hop
-      simp only [upd]; split
+      intro m' t' to hc hm hop
+      simp only [upd] at hc ⊢; split
       · simp
-      · exact h.held m' t' to hm hop
+      · next hneq => simp only [hneq, if_false] at hc; exact h.held m' t' to hc hm hop
     · exact h
   case mutexUnlock m no hd by_ =>
     simp only [pre, preMutexUnlock] at hp
@@ -282,20 +298,22 @@ theorem eff_invQ (s : St) (e : Ev) (hp : pre s e = none) (h : InvQ s) : InvQ (ef
     · rw [if_pos c1] at hp; exact absurd hp (by simp)
     · by_cases c2 : hd ≠ (s.queue m).head?
       · rw [if_neg c1, if_pos c2] at hp; exact absurd hp (by simp)
-      · by_cases c3 : no ≠ hd
+      · by_cases c3 : no ≠ (if (s.mutex m).contending then none else hd)
         · rw [if_neg c1, if_neg c2, if_pos c3] at hp; exact absurd hp (by simp)
         · simp only [ne_eq, Decidable.not_not] at c2 c3
           refine ⟨h.mem, h.nodup, ?_⟩
-          intro m' t' to hm hop
-          simp only [effMutexUnlock, upd] at hm ⊢
+          intro m' t' to hc hm hop
+          simp only [effMutexUnlock, upd] at hm hc ⊢
           split
           · next heq =>
             subst heq
-            rw [c3, c2]
+            simp only [if_true] at hc
+            rw [c3, hc, c2]
+            simp only [Bool.false_eq_true, if_false]
             cases hq : s.queue m' with
             | nil => rw [hq] at hm; simp at hm
             | cons a r => simp
-          · exact h.held m' t' to hm hop
+          · next hneq => simp only [hneq, if_false] at hc; exact h.held m' t' to hc hm hop
   case sleep t q dl =>
     simp only [pre, preSleep] at hp
     have hr : (s.th t).st = .run := by
@@ -317,11 +335,11 @@ theorem eff_invQ (s : St) (e : Ev) (hp : pre s e = none) (h : InvQ s) : InvQ (ef
           · next heq => subst heq; exact absurd hm (hnq k)
           · exact h.mem k t' hm
         · exact h.nodup
-        · intro m t' to hm hop
+        · intro m t' to hc hm hop
           simp only [setTh, upd] at hm hop ⊢
           split at hop
           · next heq => subst heq; exact absurd hm (hnq m)
-          · exact h.held m t' to hm hop
+          · exact h.held m t' to hc hm hop
       | some k =>
         constructor
         · intro k' t' hm
@@ -345,7 +363,7 @@ theorem eff_invQ (s : St) (e : Ev) (hp : pre s e = none) (h : InvQ s) : InvQ (ef
           · next heq => subst heq; exact List.nodup_append.mpr ⟨h.nodup _, by simp, by
               intro a ha b hb; simp at hb; subst hb; intro hab; subst hab; exact hnq _ ha⟩
           · exact h.nodup k'
-        · intro m t' to hm hop
+        · intro m t' to hc hm hop
           simp only [setTh, upd] at hm hop ⊢
           by_cases htt : t' = t
           · subst htt
@@ -369,7 +387,7 @@ theorem eff_invQ (s : St) (e : Ev) (hp : pre s e = none) (h : InvQ s) : InvQ (ef
                 · exact hm
                 · exact absurd hm htt
               · simp only [hk, if_false] at hm; exact hm
-            exact h.held m t' to hm' hop
+            exact h.held m t' to hc hm' hop
     cases q <;> exact ⟨key.mem, key.nodup, key.held⟩
   case wakeTimeout t =>
     exact wake_invQ s h t { s.th t with st := .run, q := none } rfl rfl rfl
@@ -406,9 +424,10 @@ theorem reachable_invQ (s : St) (h : Reachable s) : InvQ s := by
     mutexes, timeouts and interrupts anywhere in the acquisition protocol): if a mutex is free, no
     thread is parked inside `lock()` on it — so a failed (timed-out or interrupted) lock leaves
     nothing behind, and a waiter can only be asleep while somebody owns the mutex. -/
-theorem C01_not_stuck (s : St) (hr : Reachable s) (m : Nat) (hfree : (s.mutex m).owner = none)
+theorem C01_not_stuck (s : St) (hr : Reachable s) (m : Nat) (hnc : (s.mutex m).contending = false)
+    (hfree : (s.mutex m).owner = none)
     (t : Nat) (ht : t ∈ s.queue m) (to : Option Nat) : (s.th t).op ≠ .lock m to :=
-  fun hop => (reachable_invQ s hr).held m t to ht hop hfree
+  fun hop => (reachable_invQ s hr).held m t to hnc ht hop hfree
 
 /-- a thread is in at most one wait queue, exactly while it sleeps there -/
 theorem C01_queue_exact (s : St) (hr : Reachable s) (k t : Nat) (ht : t ∈ s.queue k) :
@@ -421,7 +440,7 @@ theorem C01_queue_exact (s : St) (hr : Reachable s) (k t : Nat) (ht : t ∈ s.qu
 theorem C01_unlock_handoff (s s' : St) (m : Nat) (no hd : Option Nat) (b : Nat)
     (h : step s (.mutexUnlock m no hd b) = .ok s') :
     (s.mutex m).owner = some (unlocker s m b) ∧ hd = (s.queue m).head? ∧
-    (s'.mutex m).owner = hd ∧ s'.handoff = hd := by
+    (s'.mutex m).owner = (if (s.mutex m).contending then none else hd) ∧ s'.handoff = hd := by
   have hch := step_ok s s' _ h
   obtain ⟨s0, hth, _, _, hq, hm, _, hdf, hp, hs'⟩ := hch
   simp only [pre, preMutexUnlock, hm, hq] at hp
@@ -431,7 +450,7 @@ theorem C01_unlock_handoff (s s' : St) (m : Nat) (no hd : Option Nat) (b : Nat)
   · rw [if_pos c1] at hp; exact absurd hp (by simp)
   · by_cases c2 : hd ≠ (s.queue m).head?
     · rw [if_neg c1, if_pos c2] at hp; exact absurd hp (by simp)
-    · by_cases c3 : no ≠ hd
+    · by_cases c3 : no ≠ (if (s.mutex m).contending then none else hd)
       · rw [if_neg c1, if_neg c2, if_pos c3] at hp; exact absurd hp (by simp)
       · simp only [ne_eq, Decidable.not_not] at c1 c2 c3
         rw [hs']
